@@ -205,7 +205,7 @@ def run_family(fam, tier, seed):
                 res['errors'].append(line[:500])
         if not got_summary:
             res['errors'].append('driver printed no SUMMARY: ' + out[-300:])
-    if res['skipped'] * 4 > max(res['cases'], 1):
+    if res['skipped'] > fam.get('max_skip', 0.25) * max(res['cases'], 1):
         res['errors'].append(f"{res['skipped']} of {res['cases']} generated cases were skipped (generator no longer fits the implementation)")
     return res
 
